@@ -1025,6 +1025,20 @@ SPECS = [
     dict(name="bil_resample", file="pyresample/bilinear/_base.py", func="_resample",
          params=[("corner_points", tup(RAT, RAT, RAT, RAT)), ("fractional_distances", tup(RAT, RAT))],
          returns=RAT, select=_whole, owners=["C06"]),
+    # ---- C08 -----------------------------------------------------------------------------------
+    dict(name="ewa_ll2cr_params", file="pyresample/ewa/ewa.py", func="ll2cr", mode="fragment",
+         params=[("area_def.pixel_size_x", RAT), ("area_def.pixel_size_y", RAT), ("area_def.width", INT), ("area_def.height", INT),
+                 ("area_def.area_extent", tup(RAT, RAT, RAT, RAT))],
+         outputs=["cw", "ch", "w", "h", "ox", "oy"],
+         output_types={"cw": RAT, "ch": RAT, "w": INT, "h": INT, "ox": RAT, "oy": RAT},
+         select=_from_stmt("cw = area_def.pixel_size_x", upto="swath_points_in_grid = _ll2cr.ll2cr_static(lons, lats, fill, "
+                           "swath_def.crs, area_def.crs, cw, ch, w, h, ox, oy)"),
+         post_guard=["return (swath_points_in_grid, lons, lats)"], owners=["C08", "C18"]),
+    dict(name="dask_ewa_rebase", file="pyresample/ewa/dask_ewa.py", func="_delayed_fornav", mode="fragment",
+         params=[("ll2cr_result", tup(RAT, RAT)), ("x_slice", sl(INT)), ("y_slice", sl(INT))],
+         outputs=["cols", "rows"], output_types={"cols": RAT, "rows": RAT},
+         select=_from_stmt("cols = ll2cr_result[0]", upto="weights = np.zeros(subdef.shape, dtype=weights_dtype)"),
+         post_guard=["subdef = target_geo_def[y_slice, x_slice]"], owners=["C08", "C18"]),
     # ---- C20 -----------------------------------------------------------------------------------
     dict(name="cf_axis_info", file="pyresample/utils/cf.py", func="_load_cf_axis_info", mode="fragment",
          params=[("first", RAT), ("last", RAT), ("nb", INT)], outputs=["delta", "spacing", "sign"],
